@@ -706,6 +706,11 @@ theorem blocked_false_room (l u x p : Rat) (h : blocked l u x p = false) :
     · linarith
     · exact absurd hp (not_lt.mpr h1)
 
+/-- the variant-parametrised model instantiated with the unrepaired variant is `direction` (the function the
+theorems of this section are about); the driver runs `directionV` with the variant regenerated from the tree -/
+theorem directionV_head (pp pBp : Rat) (cs : List (BoxCoord Rat)) :
+    directionV ⟨false, false⟩ pp pBp cs = direction pBp cs := rfl
+
 /-- **coords_ok.**  For a point with `l ≤ x ≤ u` (coordinate-wise), every record produced by the active-set
 split of `getBoxConstrainedDirection` satisfies `CoordOK` — whatever `multBInv` returns. -/
 theorem coords_ok (binv : Vec Rat → Vec Rat) (l u x g : Vec Rat)
